@@ -378,12 +378,75 @@ class Fn:
                 names['else'] = '|'.join(rest) if rest else 'else'
         return d, names
 
-    def conds(self, bi):
-        """guard conditions of a block as normalised (Cond) records"""
+    def conds(self, bi, _seen=None):
+        """guard conditions of a block as normalised (Cond) records.  A guard that tests the variant of a value a
+        spliced-in helper returned (`check(..)?`: a multi-definition Result / Option local, possibly through
+        `Try::branch`) also contributes the guards common to every place where that variant is built: reaching
+        the Continue edge means one of the `Ok(..)` constructions was executed, hence whatever dominates all of them
+        held (records marked 'derived')"""
         out = []
+        seen = _seen or frozenset([bi])
         for s, labels, tb in self.guards.get(bi, []):
-            out.append(self.cond_of(s, labels))
+            c = self.cond_of(s, labels)
+            out.append(c)
+            if c['kind'] == 'variant' and len(c['variants']) == 1 and len(seen) < 6:
+                blocks = self._variant_def_blocks(c['a'], c['variants'][0])
+                if blocks:
+                    common = None
+                    for db, extra in blocks:
+                        if db in seen:
+                            common = None
+                            break
+                        cs = self.conds(db, seen | {db}) + ([extra] if extra else [])
+                        keyed = {(x['switch'], tuple(x['labels'])): x for x in cs}
+                        common = keyed if common is None else {k: v for k, v in common.items() if k in keyed}
+                    have = {(x['switch'], tuple(x['labels'])) for x in out}
+                    for k, v in (common or {}).items():
+                        if k not in have:
+                            out.append(dict(v, derived=True))
         return out
+
+    def _variant_def_blocks(self, a, variant):
+        """blocks where the multi-definition local tested by `a` is assigned an aggregate of `variant` (through
+        whole-local moves; `branch(x)`: Continue <- Ok / Some, Break <- Err / None); None when some definition is opaque"""
+        a = strip_refs(a)
+        want = {variant}
+        if a[0] == 'call' and short(a[1]) == 'branch' and len(a[2]) == 1:
+            a = strip_refs(a[2][0])
+            want = {'Ok', 'Some'} if variant == 'Continue' else {'Err', 'None'} if variant == 'Break' else set()
+        if a[0] != 'var' or not want:
+            return None
+        out = []
+        todo, done = [a[1]], set()
+        while todo:
+            l = todo.pop()
+            if l in done:
+                continue
+            done.add(l)
+            ds = self.defs.get(l, [])
+            if not ds or len(done) > 8:
+                return None
+            for d in ds:
+                if d[0] != 'assign':
+                    cs_ = short(d[3]['callee'].get('path') or d[3]['callee'].get('def') or '') if d[0] == 'call' else ''
+                    if cs_ == 'from_residual':
+                        continue       # always the failing variant
+                    if cs_ == 'ok' and len(d[3]['args']) == 1 and want & {'None', 'Some'}:
+                        # `r.ok()` is None exactly when r is Err
+                        v = 'Err' if 'None' in want else 'Ok'
+                        arg = self.operand_expr(d[3]['args'][0], d[1])
+                        out.append((d[1], {'kind': 'variant', 'a': arg, 'variants': [v], 'switch': ('ok', d[1]), 'labels': [v], 'line': d[3].get('line'), 'raw': arg, 'derived': True}))
+                        continue
+                    return None
+                rv = d[3]
+                if rv['r'] == 'agg' and rv['kind'].get('k') == 'adt':
+                    if rv['kind'].get('variant') in want:
+                        out.append((d[1], None))
+                elif rv['r'] == 'use' and rv['a'].get('o') in ('copy', 'move') and not rv['a']['pl']['p']:
+                    todo.append(rv['a']['pl']['l'])
+                else:
+                    return None
+        return out or None
 
     def cond_of(self, s, labels):
         """normalise one guard to dict(kind, a, b, truth, raw, switch)"""
@@ -443,7 +506,10 @@ class Fn:
                 labels.append('else')
             if not labels:
                 return None
-            return want(self.cond_of(p, frozenset(labels)))
+            c = self.cond_of(p, frozenset(labels))
+            if c['kind'] == 'variant' and c['variants'] == ['else']:
+                return 'INFEASIBLE'      # the otherwise edge of a switch that lists every variant (e.g. the `_` arm of matches!)
+            return want(c)
 
         def go(x, depth=0):
             if x in memo:
@@ -457,6 +523,8 @@ class Fn:
                 if p not in self.reach or self.dominates(x, p):
                     continue   # back edge
                 kv = constraint(p, x)
+                if kv == 'INFEASIBLE':
+                    continue
                 for c in go(p, depth + 1):
                     if kv is None:
                         out.add(c)
